@@ -1032,6 +1032,29 @@ func (f *fuzzer) runaway(cs *ccase, gi int, cb []byte, g run.Goroutine, stuck []
 }
 
 // judgeNoAnswer applies the logical wedge criterion after the client timeout.
+// spinning: bounded progress. The scripted result sets are small (at most a few thousand rows) and this process
+// serves one request at a time in this lane: a request whose goroutine is still running in the same qryn function
+// in every one of nine more dumps 5 s apart (60 s after it was sent, with no heap growth - that is runaway's case)
+// is not slow, it does not end.
+func (f *fuzzer) spinning(cs *ccase, gi int, cb []byte, g run.Goroutine) bool {
+	fr := g.QrynFrames()[0]
+	for i := 0; i < 9; i++ {
+		time.Sleep(5 * time.Second)
+		g2, ok := qrynActive(run.Census())[g.ID]
+		if !ok || len(g2.QrynFrames()) == 0 || g2.QrynFrames()[0] != fr {
+			return false
+		}
+		if st := strings.SplitN(g2.State, ",", 2)[0]; st != "running" && st != "runnable" {
+			return false
+		}
+	}
+	f.c.Violation("spinning/"+sigEndpoint(cs.Gen.Endpoint)+"/"+fr, fmt.Sprintf("%s: no complete HTTP answer after %v; the request's goroutine was running in %s in each of eleven dumps over 60 s, on a result set of at most %d rows and with a flat heap; request %s; database script %s",
+		cs.Gen.Endpoint, clientWait+47*time.Second, fr, shapeRows(cs.DB.Shape), clip(cs.Gen.Req.String(), 400), cs.DB.class()),
+		map[string]any{"case_index": gi, "case": json.RawMessage(cb), "goroutine": clip(g.Raw, 4000)})
+	fmt.Fprintf(os.Stderr, "\nVERIF-SPINNING case=%d computing=%s\n", gi, fr)
+	return true
+}
+
 func (f *fuzzer) judgeNoAnswer(cs *ccase, gi int, o outcome) {
 	c := f.c
 	d1 := qrynActive(run.Census())
@@ -1056,6 +1079,9 @@ func (f *fuzzer) judgeNoAnswer(cs *ccase, gi int, o outcome) {
 			st := strings.SplitN(g.State, ",", 2)[0]
 			if st == "running" || st == "runnable" || st == "syscall" {
 				if f.runaway(cs, gi, cb, g, stuck) {
+					return
+				}
+				if f.spinning(cs, gi, cb, g) {
 					return
 				}
 				c.Undecided("request unanswered after " + clientWait.String() + " but still computing in " + g.QrynFrames()[0])
